@@ -174,9 +174,21 @@ impl Check for C11 {
         w.add_node(spec, ch);
         let mut parent = RefMaster::new(10, 0, Pid::new(PARENT_ID, 1), random_gm(ch, PARENT_ID, 10), log);
         parent.gm.identity = PARENT_ID;
-        let mut rival = RefMaster::new(11, 1, Pid::new(RIVAL_ID, 1), random_gm(ch, RIVAL_ID, 50), log);
+        // in a third of the runs the rival sits on the parent's segment: a take-over then moves the
+        // slave port from one parent straight to another (Slave -> Slave on one port), and the two
+        // senders' Announce sequence ids are unrelated (a freshly started master counts from 0,
+        // one that has run for hours is anywhere)
+        let rival_shares = ch.chance(S_CFG, 1, 3);
+        if rival_shares {
+            w.attach_script(0, 19);
+            w.out.probe("rival_on_parents_segment");
+        }
+        let (rival_ep, rival_seg) = if rival_shares { (19, 0) } else { (11, 1) };
+        let mut rival = RefMaster::new(rival_ep, rival_seg, Pid::new(RIVAL_ID, 1), random_gm(ch, RIVAL_ID, 50), log);
         rival.gm.identity = RIVAL_ID;
         rival.active = ch.boolean(S_CFG);
+        parent.seq_announce = *ch.pick(S_CFG, &[0u16, 20_000, 65_530, 40_000]);
+        rival.seq_announce = *ch.pick(S_CFG, &[0u16, 0, 7, 65_000, 33_000]);
         // neighbours need not announce at the rate this instance is configured for (the receiver
         // cannot know their rate; a faster parent fills the per-master announce window)
         parent.announce_log = log - *ch.pick(S_CFG, &[0i8, 0, 1, 2, 3, -1]);
@@ -207,6 +219,12 @@ impl Check for C11 {
         let mut allowed_q_bmca = u64::MAX;
         let mut applied_decisions = 0u64;
         let mut slave_announces = 0u64;
+        let mut prev_parent: Option<(usize, Pid)> = None;
+        // earlier (superseded) fresh Announces per (port, sender), and how many fresh Announces the
+        // current parent has delivered to the slave port since it became the parent there
+        let mut older_from: std::collections::BTreeMap<(usize, Pid), Vec<View>> = Default::default();
+        let mut selected: Option<(usize, Pid)> = None;
+        let mut fresh_since_selected = 0u64;
         loop {
             let Some(st) = w.step(ch, end) else { break };
             match st {
@@ -235,13 +253,22 @@ impl Check for C11 {
                             let at = w.now() + HostPort::interval_units(parent.announce_log) * 5 / 4 + i_units / 8;
                             w.schedule_script(at, TAG_USER + 10, 0, 0);
                         }
-                        let mut g = random_gm(ch, PARENT_ID, parent.gm.priority1);
-                        if ch.chance(S_WORK, 3, 4) {
-                            g.identity = parent.gm.identity;
+                        if rival.active && ch.chance(S_WORK, 1, 3) {
+                            // the rival's Announce contents change (it is the parent after a take-over)
+                            let mut g = random_gm(ch, RIVAL_ID, rival.gm.priority1);
+                            g.identity = RIVAL_ID;
+                            changes.push(format!("t={:.2}s rival announce content change steps={} flags={:#06x}", tt_to_secs(w.now()), g.steps_removed, g.flags));
+                            rival.gm = g;
+                            w.out.fault("rival_content_change");
+                        } else {
+                            let mut g = random_gm(ch, PARENT_ID, parent.gm.priority1);
+                            if ch.chance(S_WORK, 3, 4) {
+                                g.identity = parent.gm.identity;
+                            }
+                            changes.push(format!("t={:.2}s parent announce content change steps={} flags={:#06x}", tt_to_secs(w.now()), g.steps_removed, g.flags));
+                            parent.gm = g;
+                            w.out.fault("parent_content_change");
                         }
-                        changes.push(format!("t={:.2}s parent announce content change steps={} flags={:#06x}", tt_to_secs(w.now()), g.steps_removed, g.flags));
-                        parent.gm = g;
-                        w.out.fault("parent_content_change");
                     }
                     1 => {
                         parent.active = !parent.active;
@@ -303,6 +330,14 @@ impl Check for C11 {
             } else if had_slave && bmca_at_slave_loss.is_none() {
                 bmca_at_slave_loss = Some(node.bmca_count);
             }
+            {
+                let pd = node.inst.parent_ds();
+                let cur = node.slave_port().map(|p| (p, Pid::new(pd.parent_port_identity.clock_identity.0, pd.parent_port_identity.port_number)));
+                if cur != selected {
+                    selected = cur;
+                    fresh_since_selected = 0;
+                }
+            }
             // deliveries: an Announce from the current parent to the slave port must show in the data sets at once
             while rx_seen < w.rx_log.len() {
                 let r = w.rx_log[rx_seen].clone();
@@ -327,7 +362,16 @@ impl Check for C11 {
                     last_seq_from.insert((r.port, f.hdr.source), f.hdr.seq);
                     let mut v = view_of_announce(&f.hdr, a);
                     v.steps_removed = v.steps_removed.wrapping_add(1);
-                    last_from.insert((r.port, f.hdr.source), v);
+                    if let Some(prev) = last_from.insert((r.port, f.hdr.source), v) {
+                        let h = older_from.entry((r.port, f.hdr.source)).or_default();
+                        h.push(prev);
+                        if h.len() > 40 {
+                            h.remove(0);
+                        }
+                    }
+                    if selected == Some((r.port, f.hdr.source)) {
+                        fresh_since_selected += 1;
+                    }
                 } else {
                     w.out.probe("stale_announce_copy_received");
                     continue;
@@ -388,6 +432,12 @@ impl Check for C11 {
                     // (b) equals what the parent last announced, stepsRemoved + 1
                     let pdn = node.inst.parent_ds();
                     let parent_now = Pid::new(pdn.parent_port_identity.clock_identity.0, pdn.parent_port_identity.port_number);
+                    if let Some(pp) = prev_parent {
+                        if pp.0 == slave_port.unwrap() && pp.1 != parent_now {
+                            w.out.probe("parent_changed_on_the_slave_port_between_two_emissions");
+                        }
+                    }
+                    prev_parent = Some((slave_port.unwrap(), parent_now));
                     if let Some(pv) = last_from.get(&(slave_port.unwrap(), parent_now)) {
                         let mut pv = pv.clone();
                         if pv.flags & flag::UTC_VALID == 0 {
@@ -396,9 +446,22 @@ impl Check for C11 {
                         if got != pv {
                             // the BMCA may legitimately have selected another parent since: only compare when the parent is unchanged
                             {
+                                // one particular way to get there is a defect of its own (known finding): the BMCA
+                                // chose this parent from a stored Announce that the sender had already superseded,
+                                // and the parent has not announced again since
+                                let from_superseded = fresh_since_selected == 0
+                                    && older_from.get(&(slave_port.unwrap(), parent_now)).map_or(false, |h| {
+                                        h.iter().any(|o| {
+                                            let mut o = o.clone();
+                                            if o.flags & flag::UTC_VALID == 0 {
+                                                o.utc_offset = 0;
+                                            }
+                                            o == got
+                                        })
+                                    });
                                 viol.push((
                                     "C11.announce_differs_from_parents_last_announce".into(),
-                                    diff_key(&got, &pv),
+                                    if from_superseded { "bmca_selected_parent_from_superseded_announce=true".to_string() } else { diff_key(&got, &pv) },
                                     format!("port {} emitted {:?}; the parent's last Announce (+1 step) was {:?}", e.port, got, pv),
                                 ));
                             }
